@@ -56,6 +56,18 @@ def scene_records(scene: dict) -> dict[str, dict]:
     return out
 
 
+def wide_records(scene: dict, ref: dict, centers: np.ndarray) -> dict:
+    rng = np.random.default_rng(scene["data_seed"] + 991)
+    rec = {k_: np.array(v) for k_, v in ref.items()}
+    n = len(rec["ra"])
+    w = rng.uniform(0.5, 1.5, n)
+    ids, _ = wl.nearest_center(np.deg2rad(np.column_stack([rec["ra"], rec["dec"]])), centers)
+    heavy = ids == int(rng.integers(0, len(centers)))
+    w[heavy] *= 10.0 ** rng.uniform(6.0, 9.0)
+    rec["w"] = w
+    return rec
+
+
 def scene_centers(scene: dict, records: dict) -> np.ndarray:
     """Centres such that every centre attracts at least one record of every
     catalog (fault-free scenes)."""
@@ -114,6 +126,16 @@ def build_scene(scene: dict, root: str, *, drop_meta: bool = False) -> dict | No
                 **wl.column_kwargs(records[name]),
             )
             paths[name] = path
+        if scene.get("wide"):
+            # the reference sample once more with weights spanning many orders of magnitude (not
+            # exactly representable): one patch dominates some bins, so that "sum of the others"
+            # and "total minus own" differ by far more than rounding of the result
+            rec = wide_records(scene, records["ref"], centers)
+            yaw.Catalog.from_dataframe(
+                os.path.join(root, "wide"), wl.make_dataframe(rec), patch_centers=coords,
+                chunksize=scene.get("chunksize"), max_workers=1, **wl.column_kwargs(rec),
+            )
+            paths["wide"] = os.path.join(root, "wide")
     if drop_meta:
         strip_derived(root)
     return dict(paths=paths, centers=centers, records=records)
@@ -129,7 +151,10 @@ def strip_derived(root: str, *, meta: bool = True, trees: bool = True) -> None:
 
 def copy_scene(src_root: str, dst_root: str) -> dict[str, str]:
     shutil.copytree(src_root, dst_root)
-    return {name: os.path.join(dst_root, name) for name in CATS}
+    out = {name: os.path.join(dst_root, name) for name in CATS}
+    if os.path.isdir(os.path.join(dst_root, "wide")):
+        out["wide"] = os.path.join(dst_root, "wide")
+    return out
 
 
 def gen_scene(prng, *, small: bool = False) -> dict:
